@@ -18,13 +18,11 @@ Lemma cash_indep5 : forall m, (m <= 112)%nat -> indep G8 5 (iterl cash_params m 
 Proof.
   apply (indep_shift cash_params G8 1025 cash_code_ok 5 111 1 (valid_1 cash_params G8 1025 cash_code_ok)).
   intros sub cs a0 Hsub Hlen Hw Ha0 Hcs.
-  apply (head_indep G8 cash_laws 1 cash_rest 1 0 2); auto.
-  - apply (valid_1 cash_params G8 1025 cash_code_ok).
-  - exact cash_rest_valid.
-  - exact cash_pivot.
-  - exact cash_chk0.
-  - exact cash_chk2.
-  - lia.
+  change (Sub sub cash_rest) in Hsub.
+  assert (Hw' : (length sub <= 2 + 2)%nat) by lia.
+  exact (head_indep G8 cash_laws 1 cash_rest 1 0 2 (le_n 2)
+           (valid_1 cash_params G8 1025 cash_code_ok) cash_rest_valid cash_pivot cash_chk0 cash_chk2
+           sub cs a0 Hsub Hlen Hw' Ha0 Hcs).
 Qed.
 
 Theorem cash_register_detects_5 : forall S v v',
